@@ -25,3 +25,11 @@ claim('C11',
       "property's own rule.",
       "contract-based deductive verification: loop-invariant cut on the real find_id_loc over index-quantified strings; ground call-site obligations",
       "DESIGN.md 3 C11")
+claim('C10',
+      "The report loop of the real lint() is cut by a loop invariant (result == reports of the first k bindings) and its body is "
+      "proved, for an arbitrary binding of every binding class in every scope kind with an arbitrary identifier text, to append "
+      "exactly what the statement's exemption table prescribes (code, own name, declared_at, at most once).",
+      "That a binding whose identifier is never read is never marked `used` is the usage-loop contract (C02); that all_names "
+      "enumerates every binding once is a stated lemma; `locals()` programs are treated as the code treats them.",
+      "contract-based deductive verification: loop-invariant cut on the real lint(), case product over the real binding/scope classes",
+      "DESIGN.md 3 C10")
